@@ -82,6 +82,7 @@ func NewManager() *Manager {
 func (manager *Manager) handler() {
 	activateTicker := time.NewTicker(manager.retryTime)
 	defer activateTicker.Stop()
+	verifTicker(manager, activateTicker)
 
 	for {
 		select {
